@@ -82,6 +82,15 @@ def step (s : St) (l : Line) : St × Verdict :=
     match ofHex ks, hexNat id with
     | some k, some n => ({ s with agents := s.agents ++ [⟨id, n, k, rest.head?, []⟩] }, .ok)
     | _, _ => (s, .bad "agent args")
+  | "reconnect", [parent, child] =>
+    -- an existing agent connected again: it hangs below `parent` from now on, unless that would close a cycle
+    match s.find parent, s.find child with
+    | some _, some ca =>
+      let rec isAnc : Nat → String → Bool
+        | 0, _ => false
+        | f + 1, x => x == child || (match (s.find x).bind (·.parent) with | some p => isAnc f p | none => false)
+      if isAnc 12 parent then (s, .ok) else (s.upd { ca with parent := some parent }, .ok)
+    | _, _ => (s, .bad "reconnect args")
   | "ptask", [target, cmd, req, args] =>
     match cmd.toNat?, req.toNat?, parseArgs args, rootOf s 10 target, s.find target with
     | some c, some r, some as, some root, some a =>
